@@ -474,6 +474,9 @@ func buildProbes() []probe {
 				c0, c1, ref = "4294967295", "4294967293", "[..= 1]"
 			} else if ty == "u32" {
 				c0, c1 = "60000", "70000"
+				if as[0] == "*" {
+					c0, c1 = "600", "700"
+				}
 			}
 			nm := name("k")
 			ps = append(ps, probe{name: nm, op: fmt.Sprintf("lowerassoc %s %s 1 c%s c%s", as[1], ty, c0, c1),
